@@ -48,8 +48,11 @@ def run(tier, seed):
     sandy = {"type": "custom", "kw": {"dz": [0.1] * 12}, "layers": [[1.2, 0.06, 0.13, 0.36, 3000.0, 100]]}
     loamy = {"type": "custom", "kw": {"dz": [0.1] * 12}, "layers": [[1.2, 0.15, 0.31, 0.46, 500.0, 100]]}
     cfgs = {1: S("Wheat", seed=seed + 1, soil_spec=sandy, gw={"water_table": "Y", "dates": ["2001/04/20"], "values": [2.0]}, irr={"method": 1, "kw": {"SMT": [60] * 4}}),
-            2: S("Wheat", seed=seed + 1, soil_spec=loamy, gw={"water_table": "Y", "dates": ["2001/04/20"], "values": [2.0]}, crop_kw={"Zmax": 1.0}),
-            3: S("Tomato", "Default", seed=seed + 3, irr={"method": 3, "schedule": [["2001/05/05", 30], ["2001/06/01", 20]]}, crop_kw={"Zmax": 1.6})}
+            # several observation dates / schedule records / CO2 years: any ordering that depended on hashing would show across hash seeds
+            2: S("Wheat", seed=seed + 1, soil_spec=loamy, gw={"water_table": "Y", "method": "Constant", "dates": ["2001/04/20", "2001/06/01", "2001/07/15", "2001/08/20"], "values": [2.0, 1.2, 0.9, 1.6]},
+                 crop_kw={"Zmax": 1.0}, co2={"co2_data": [[1990, 355.0], [2000, 369.5], [2001, 371.0], [2010, 390.0]]}),
+            3: S("Tomato", "Default", seed=seed + 3, irr={"method": 3, "schedule": [["2001/05/05", 30], ["2001/06/01", 20], ["2001/06/20", 25], ["2001/07/04", 15], ["2001/07/30", 28]]}, crop_kw={"Zmax": 1.6},
+                 gw={"water_table": "Y", "method": "Variable", "dates": ["2001/04/20", "2001/06/10", "2001/08/01", "2001/09/15"], "values": [2.2, 1.4, 1.0, 1.9]})}
     hs, st = tlc_histories(6 if tier == "thorough" else 5)
     rnd.shuffle(hs)
     # only histories in which at least one instance has been stepped
@@ -90,7 +93,7 @@ def run(tier, seed):
         base = len(jobs)
         jobs.append({"kind": "plain", "scenario": sc})
         presup[base] = E.run_job_subprocess(jobs[base], hashseed="0")
-        for hsd in (["1", "random", "12345"] if tier == "thorough" else ["1", "random"]):
+        for hsd in (["1", "2", "3", "random", "12345", "777"] if tier == "thorough" else ["1", "2", "random"]):
             jobs.append({"kind": "plain", "scenario": sc})
             j = len(jobs) - 1
             presup[j] = E.run_job_subprocess(jobs[j], hashseed=hsd)
